@@ -347,6 +347,28 @@ fn silence(w: &mut World, _ctx: &RunCtx, states: &mut Vec<u64>) -> Result<(), Vi
             }
         }
     }
+    // a stray first handshake message from the silent node's address (anybody can replay a captured one; a restarted
+    // peer whose link dies again sends one too) opens a handshake next to the peer entry and must not keep it alive
+    if w.ch.chance("stray_handshake_messages", 300) {
+        let pings: Vec<(usize, Vec<u8>)> = (0..n)
+            .filter(|i| *i != s)
+            .filter_map(|i| {
+                let dst = w.nodes[i].addr;
+                w.wire.iter().find(|r| r.from_node == Some(s) && r.dst == dst && matches!(r.origin, super::world::Origin::Genuine) && World::is_init_datagram(&r.data)).map(|r| (i, (*r.data).clone()))
+            })
+            .collect();
+        let span = (0..n).map(|i| w.nodes[i].cfg.peer_timeout).max().unwrap_or(300) as u64 + 10;
+        let gap = 20_000 + w.ch.choose("stray_gap_ms", 80_000) as u64;
+        for (i, ping) in pings {
+            let dst = w.nodes[i].addr;
+            let mut t = 1_000 + w.ch.choose("stray_first_ms", 60_000) as u64;
+            while t < span * 1000 {
+                w.inject(s_addr, dst, ping.clone(), t, "replayed-handshake-ping");
+                w.count("c15_stray_handshake_messages");
+                t += gap;
+            }
+        }
+    }
     w.note(|| format!("n{} goes silent ({})", s, if selective { "its control traffic is lost, its payload still arrives" } else { "all its datagrams are dropped in both directions" }));
     states.push(mesh::abstract_state(w));
     // per observer: last known expiry of the silent peer
